@@ -237,7 +237,7 @@ func main() {
 		}
 		var tpl []string
 		for _, t := range danglingTemplates() {
-			tpl = append(tpl, t.ctx+": "+describe([]Call{t.call})+" ["+t.id+"]")
+			tpl = append(tpl, t.ctx+": "+strings.TrimPrefix((&Program{Ctx: t.ctx, Hole: t.hole()}).Source(), "["+t.ctx+"] ")+" ["+t.id+"]")
 		}
 		out.Encode(map[string]any{"functions": fns, "contexts": contextOrder, "relevant_contexts": relevantContexts,
 			"dangling_templates": tpl, "menus": map[string]int{"string": len(strMenu), "int": len(intMenu), "func": len(funcMenu), "any": len(menuFor(anyType()))}})
@@ -298,7 +298,7 @@ func selftest() {
 		fmt.Printf("SELFTEST-FAIL "+format+"\n", a...)
 	}
 	// 1. every scaffold with an empty hole is a valid design
-	for _, ctx := range contextOrder {
+	for _, ctx := range append(append([]string{}, contextOrder...), extraContexts...) {
 		o := run(&Program{Ctx: ctx})
 		if o.Class != "accepted" {
 			fail("scaffold %s with an empty hole is %s: %s %s", ctx, o.Class, o.FirstErr, o.Msg)
@@ -312,8 +312,8 @@ func selftest() {
 		names = append(names, n)
 	}
 	sort.Strings(names)
-	if len(names) != len(contextOrder) {
-		fail("contextOrder lists %d contexts, scaffolds has %d", len(contextOrder), len(names))
+	if len(names) != len(contextOrder)+len(extraContexts) {
+		fail("contextOrder + extraContexts list %d contexts, scaffolds has %d", len(contextOrder)+len(extraContexts), len(names))
 	}
 	// 2. state is fresh: an outcome does not depend on what ran before
 	probe := []*Program{
